@@ -251,6 +251,28 @@ def reasm_component(ctx, pfx, replay=True):
     ctx.distinct.add(("reasm-component", pfx))
 
 
+def directed_traces(ctx, mode, shards, env=None):
+    binp = ctx.harness()
+    out = ctx.scr.mkdir(mode)
+    e = {"VF_NSHARDS": shards, "VF_SEED": ctx.seed}
+    if env:
+        e.update(env)
+    ps = L.run_shards(binp, mode, out, shards, e)
+    for p in ps:
+        if p.returncode != 0:
+            raise L.MachineryError("harness %s failed:\n" % mode + (p.stdout + p.stderr)[-3000:])
+    files = sorted(glob.glob(os.path.join(out, mode + "-*.ndjson")))
+    for f in files:
+        for line in open(f):
+            if '"ev":"cfg"' in line:
+                try:
+                    lab = json.loads(line)["label"]
+                except Exception:
+                    continue
+                ctx.distinct.add((mode, lab.split("#")[0]))
+    return files
+
+
 ALL_PROFILES = ["basic", "lossy", "reorder", "zwin", "pr", "wrap", "il", "tiny", "clean"]
 
 
@@ -289,7 +311,11 @@ def c02(ctx):
 @check("C07", ["C07_"])
 def c07(ctx):
     reasm_component(ctx, "C07", replay=not ctx.quick)
-    files = xfer_traces(ctx, ["pr", "pr", "pr", "lossy", "il"], 200, 5000)
+    files = xfer_traces(ctx, ["pr", "pr", "pr", "lossy", "il"], 120, 5000)
+    files += directed_traces(ctx, "prdir", 8 if ctx.quick else 16, {"VF_FULL": "0" if ctx.quick else "1"})
+    ctx.exhaustive = True
+    ctx.notes.append("prdir: every set of <= 2 dropped (message, fragment) first transmissions over 3 message shapes x ordered/unordered x DATA/I-DATA "
+                     "(+ lost FORWARD-TSN, differently configured receiver, mixed ordering variants) is enumerated")
     ctx.validate(files)
 
 
